@@ -45,7 +45,7 @@ def make_config(nt, ns, use_cache=False, repeated_met=False, levels=None, nx=8, 
     raw = {
         "domain": dom,
         "towers": [dict(t) for t in TOWERS[:nt]],
-        "met": dict({"ustar": ustar, "mol": -120.0, "wind_speed": 3.5, "wind_dir": wd}, **({"timestamps": ["t%02d" % i for i in range(ns)]} if timestamps else {})),
+        "met": dict({"ustar": ustar, "mol": -120.0, "wind_speed": 3.5, "wind_dir": wd}, **({"timestamps": ["%d:00" % (7 * i + 2) for i in range(ns)]} if timestamps else {})),      # "2:00", "9:00", "16:00", "23:00", "30:00": not in text order
         "solver": {"footprint": True, "precision": "double", "closure": "MOST"},
         "parallel": {"use_cache": bool(use_cache)},
     }
